@@ -147,3 +147,37 @@ type EmbTwoPtrColl struct {
 	*PtrCaseInner
 	Z int
 }
+
+// Shadowing across embedding depths, none of the members tagged: the shallowest X wins and the
+// deeper ones are hidden; Y and W are reachable at depth 2 and 3.
+type ShDeep3 struct{ X, W int }
+type ShDeep struct {
+	X, Y int
+	ShDeep3
+}
+type ShMid struct {
+	ShDeep
+	Z int
+}
+type ShTop struct {
+	X string
+	ShMid
+}
+type ShMidP struct {
+	*ShDeep
+	Z int
+}
+type ShTopP struct {
+	X string
+	*ShMidP
+}
+
+// the shadowing member sits at depth 1, the shadowed ones at depth 2 and 3
+type ShTop1 struct {
+	ShMid1
+	K int
+}
+type ShMid1 struct {
+	W string
+	ShDeep
+}
